@@ -23,7 +23,7 @@ RULE = ("Hypothesis state machine over up to 6 simultaneously open files (plus o
         "communicators, info objects and file handles created by library code is balanced. Non-trivial = an id that is not open "
         "is used while another file is open, or a failing call is followed by a quiesce point.")
 ASSUMPTIONS = ["ids are predicted as 'lowest free table index'; a case whose prediction fails is counted as inconclusive, not as a violation",
-               "k=1 in the quick tier (id table and heap are per process); k=2 cases in the thorough tier",
+               "most cases run on one process (id table and heap are per process); a quarter on 2 (thorough: up to 3) processes, where files have separate collective and independent MPI file handles",
                "MPI objects are attributed to the library by return address (the harness itself only uses PMPI_*)"]
 X = 4
 
@@ -35,7 +35,7 @@ PROBES = ["enddef", "redef", "sync", "inq", "def_dim", "def_var", "put_att", "ge
 @st.composite
 def case_strategy(draw, tier="quick"):
     nsteps = draw(st.integers(4, 16 if tier == "quick" else 30))
-    k = 1 if tier == "quick" else draw(st.sampled_from([1, 1, 2]))
+    k = draw(st.sampled_from([1, 1, 1, 2] if tier == "quick" else [1, 1, 2, 3]))
     steps = []
     open_slots = {}      # slot -> {"ro":bool, "define":bool, "pending":int}
     exists = set()       # file names that exist on disk
